@@ -5,6 +5,7 @@ func init() {
 		ID:    "C13",
 		Title: "Errors name the line (and file) of the offending construct",
 		Rules: []string{
+			"R-ERRLINE (pairing): a program parsed from the file z is handed, together with a path, to a function that reports errors with that program's lines and that path only when the path is z",
 			"R-ERRLINE (same file): an error built while a component's program is linked into a page carries the page's path and a line of the page (the use, the slot), not a line of the component file",
 			"R-ERRLINE (who writes tokens): no store into a field of an existing token outside the lexer",
 			"R-FORMAT: every printf-like call (fmt family, and the module functions that hand a parameter on as a format: fail.New, newError, ...) gets a constant format, or the caller's own format parameter",
@@ -19,8 +20,9 @@ func init() {
 		NotDecided:  "TODO",
 		Assumptions: trustedBase,
 		Run: func(m *Model, s *Sink) {
-			m.RunErrSameFile(s, "R-ERRLINE")  // a slot error of a component use carries a line of the file whose path it carries
-			m.RunNoReadPastEnd(s, "R-TOKPOS") // an unterminated string or comment does not push the position past the input
+			m.RunProgPathPairs(s, "R-ERRLINE") // a program parsed from a file is handed on with that file's path
+			m.RunErrSameFile(s, "R-ERRLINE")   // a slot error of a component use carries a line of the file whose path it carries
+			m.RunNoReadPastEnd(s, "R-TOKPOS")  // an unterminated string or comment does not push the position past the input
 			m.RunIllegalSticky(s, "R-ILLEGAL")
 			m.RunTokenWriters(s, "R-ERRLINE")                                                                // tokens are written by the lexer only
 			m.RunFreshNodes(s, "R-ERRLINE")                                                                  // a node is built for each use: no interning of nodes by name
